@@ -11,7 +11,7 @@ import ast
 
 from ..front import AnalysisError
 from ..report import Ctx
-from .core import SCHED
+from .core import MANAGER, SCHED
 
 
 def _module_functions(ctx: Ctx, rel: str):
@@ -21,6 +21,57 @@ def _module_functions(ctx: Ctx, rel: str):
     except OSError as e:
         raise AnalysisError("C08.scheduler-consults-order", rel, f"cannot read: {e}")
     return [fi.node for fi in mi.functions.values() if isinstance(fi.node, ast.FunctionDef)]
+
+
+def validated_arguments_run_independent(ctx: Ctx, pid: str):
+    """F30: `runnable` of a transaction must not depend on any `run` (the scheduler computes run from runnable).  The
+    arguments handed to validate_arguments come from the CallInfo records of the transaction; MethodMap.rec records one
+    for every call at every depth of the call tree, and the argument of a call made *inside a method body* is computed from
+    that method's data_in, which the manager multiplexes by the callers' run bits.  So the records used for validation have
+    to be restricted to direct calls of the transaction (depth 1), or deeper validated calls have to be refused.
+    Decided on the nested function that builds the validator term: every comprehension over info_by_call[...] that reads
+    `.arg` carries a condition on the record's ancestors, or the function raises under a condition on them."""
+    rule = f"{pid}.validated-arguments-run-independent"
+    ctx.use(MANAGER)
+    try:
+        fi = ctx.repo.cls(MANAGER, "TransactionManager").methods["elaborate"]
+    except (KeyError, OSError) as e:
+        raise AnalysisError(rule, MANAGER, f"TransactionManager.elaborate not found: {e}", missing="TransactionManager.elaborate")
+    helpers = [n for n in ast.walk(fi.node) if isinstance(n, ast.FunctionDef) and n is not fi.node
+               and any(isinstance(c, ast.Attribute) and c.attr == "_validate_arguments" for c in ast.walk(n))]
+    ctx.floor(rule, "validator-building helpers in elaborate", len(helpers), 1, f"{MANAGER}:{fi.node.lineno}")
+    for h in helpers:
+        comps = []
+        for n in ast.walk(h):
+            if isinstance(n, (ast.GeneratorExp, ast.ListComp)):
+                for g in n.generators:
+                    reads_records = any(isinstance(c, ast.Attribute) and c.attr == "info_by_call" for c in ast.walk(g.iter))
+                    reads_arg = isinstance(g.target, ast.Name) and any(
+                        isinstance(c, ast.Attribute) and c.attr == "arg" and isinstance(c.value, ast.Name) and c.value.id == g.target.id for c in ast.walk(n.elt))
+                    if reads_records and reads_arg:
+                        comps.append((n, g))
+        # a local bound to info_by_call[...] and iterated later counts as the records too
+        aliases = {t.id for s in ast.walk(h) if isinstance(s, ast.Assign) and any(isinstance(c, ast.Attribute) and c.attr == "info_by_call" for c in ast.walk(s.value))
+                   for t in s.targets if isinstance(t, ast.Name)}
+        for n in ast.walk(h):
+            if isinstance(n, (ast.GeneratorExp, ast.ListComp)):
+                for g in n.generators:
+                    if isinstance(g.iter, ast.Name) and g.iter.id in aliases and isinstance(g.target, ast.Name) and any(
+                            isinstance(c, ast.Attribute) and c.attr == "arg" and isinstance(c.value, ast.Name) and c.value.id == g.target.id for c in ast.walk(n.elt)):
+                        comps.append((n, g))
+
+        def on_depth(e):
+            return any(isinstance(c, ast.Attribute) and c.attr == "ancestors" for c in ast.walk(e))
+
+        unrestricted = [(n, g) for n, g in comps if not any(on_depth(c) for c in g.ifs)]
+        alias_filtered = any(isinstance(s, ast.Assign) and any(isinstance(t, ast.Name) and t.id in aliases for t in s.targets) and on_depth(s.value) for s in ast.walk(h))
+        refuses = any(isinstance(s, ast.If) and on_depth(s.test) and any(isinstance(r, ast.Raise) for r in ast.walk(s)) for s in ast.walk(h))
+        ctx.floor(rule, "argument reads of call records", len(comps), 1, f"{MANAGER}:{h.lineno}")
+        ok = not unrestricted or alias_filtered or refuses
+        ctx.check(ok, rule, f"{MANAGER}:{h.lineno}", f"elaborate.{h.name}",
+                  found=f"{len(unrestricted)} of {len(comps)} reads of CallInfo.arg range over the records of every depth; refusal of deeper validated calls: {refuses}",
+                  required="the arguments validated for a transaction are those of its own (depth 1) calls, or a validated method reached through another method "
+                           "is refused: an argument computed inside a method body depends on that method's run-multiplexed input, and runnable must not depend on run")
 
 
 def scheduler_consults_order(ctx: Ctx, pid: str):
